@@ -158,7 +158,7 @@ def generate(rng, tier):
     worlds = []
     n_in = {"quick": 60, "thorough": 400}[tier]
     per_kind = {"quick": 2, "thorough": 8}[tier]
-    per_shape = {"quick": 1, "thorough": 4}[tier]
+    per_shape = {"quick": 1, "thorough": 3}[tier]
     for i in range(n_in):
         w = G.gen_world(rng, max_actions=3)
         worlds.append(build_world(rng, w, noise=2 if i % 4 == 3 else True))
@@ -319,12 +319,21 @@ def run(args):
     cov["exhaustive"] = False
     cov["rule"] = ("worlds = findings' witnesses + generated typed domains (<=4 types in any declaration order, constants, 2-4 predicates, <=3 "
                    "functions, 1-3 actions; and/or/not/=/forall/comparison preconditions, add/del/assign/increase/decrease/when/forall-when effects), "
-                   "rendered with layout, letter-case and comment noise + one domain per construct outside the supported fragment (c01_gen.PLANTERS: "
-                   "every form the property names and neighbouring ones; expected: faithful, or an exception at parse or at every first use) + every domain "
-                   "file shipped under /repo/tests (vocabulary / raised compared; behaviour not probed). Each parsed world is probed: 2-3 objects, one random "
-                   "state, two type-correct calls per action; units = vocabulary (parse), applicability (app), successor (succ). productions = census of "
-                   "grammar productions over the generated texts. A unit is non-trivial when its world is not a feature-less generated one and (for probes) "
-                   "the state has facts; distinct by input hash.")
+                   "rendered with layout, letter-case and comment noise (every 4th with c01_gen.render2: mixed-case names and variables, comments with "
+                   "parentheses, CR LF, no blanks next to parentheses) + one domain per construct outside the supported fragment (c01_gen.PLANTERS: "
+                   "every form the property names and neighbouring ones; expected: faithful, or an exception at parse or at every first use) + "
+                   "in-fragment SHAPES (c01_gen.SHAPES, expected: accepted and faithful): sibling conditions / conditional effects that are the same "
+                   "text up to a far decimal of a constant (agreeing to the library's printing precisions, read from the library: "
+                   "numeric_config.condition_digits / digits), an exact copy, operand order, one polarity, (= a b) vs (not (= a b)), the quantified "
+                   "type; sibling leaves that repeat / contradict; deep nesting; forall in when antecedents; constants in quantifier ranges (D30) and "
+                   "before variables; binary functions, ternary predicates; equal operands; long numerals; shadowing, empty bodies, (= ?x ?x), "
+                   "comparison forms - each probed on the action that carries the shape in 3 states chosen to separate the siblings (hinted facts all "
+                   "false / all true / random; fluent values between the two constants, shifted by EPSILON where the comparison is tolerant) x 2 calls "
+                   "(quick: every 'far' shape and a third of the others, by seed; thorough: 3 worlds per shape) + every domain file shipped under "
+                   "/repo/tests, once per distinct content (quick: up to 10 kB + one larger; vocabulary / raised compared, behaviour not probed). "
+                   "Other parsed worlds are probed with 2-3 objects, one random state, two type-correct calls per action; units = vocabulary (parse), "
+                   "applicability (app), successor (succ). productions = census of grammar productions over the generated texts. A unit is "
+                   "non-trivial when its world is not a feature-less generated one and (for probes) the state has facts; distinct by input hash.")
     cov["samples"] = [c["input"]["world"]["domain_text"][:500] for c in all_cases[:1]] + \
                      [c["input"]["world"]["domain_text"][:300] for c in all_cases if c["input"]["world"].get("oof_kind")][:2]
     rep.assumptions = ["ASCII / latin-1 text (other characters of shipped files are replaced by '?' for both sides)",
